@@ -5,7 +5,7 @@ ID = "C26"
 HARNESS_PKG = "h_net_a"
 HARNESS_ARGS = ["c26"]
 COQ_IMPORTS = "From PV Require Import Model.Codec Oracle.C26."
-COQ_SHARD = 200
+COQ_SHARD = 110
 TECHNIQUE = ("Coq proof (prefix-stability of decode + induction over the decode loop and the chunk list: feeding any byte "
              "stream chunk by chunk = decoding it at once; induction over the message list for encoder-produced streams; "
              "big-endian u32 arithmetic by div/mod) + differential correspondence of the Gallina model with the real "
